@@ -23,7 +23,7 @@ shape of the code, checked identically on the three siblings:
   BB7 driver      the initial lower bound is the value of the same assignment that is passed as the
                   initial best; the search starts from the empty assignment with the full variable list
 """
-from . import mir
+from . import mir, nc
 from .base import inst, OK, VIOLATION, UNDECIDED, strip
 from .facts import CheckerError
 from .mir import show
@@ -254,6 +254,17 @@ def run(prog):
                                 break
                 else:
                     errs.append("?running best update not recognised")
+            # BB5: every entry of the order is visited (the only way to skip one is the bound test below)
+            for x in mir.subterms(it_model):
+                if mir.is_call(x, "next") and x[2] and strip(x[2][0])[0] == "mutref":
+                    for (h, l), init in te.mu_init.items():
+                        if l == strip(x[2][0])[1]:
+                            t_ = strip(init)
+                            while isinstance(t_, tuple) and t_ and t_[0] == "call" and t_[2]:
+                                if t_[1].name in nc.DROPPING:
+                                    perrs.append("the branching order is iterated through `%s`: an entry can be skipped without its "
+                                                 "upper bound having been compared with the lower bound" % t_[1].name)
+                                t_ = strip(t_[2][0])
             # BB5: guard
             guards = []
             for c, val, _, _ in te.facts_at(cs.bb):
